@@ -29,7 +29,8 @@ WALL = {"quick": 1500, "thorough": 6 * 3600}
 
 STEP_CAP_BASE = 50_000_000      # >= 16x the largest count observed on the unchanged tree without many_funcs (3.1M)
 STEP_CAP_HEAVY = 20_000_000_000  # many_funcs inputs are super-linear in the pinned tree (2000 functions: 84M events)
-OP_TIMEOUT = 300
+OP_TIMEOUT = 300          # heavy (many_funcs) scenarios
+OP_TIMEOUT_LIGHT = 120    # everything else: the largest legitimate operation observed takes < 10 s
 CROSS_FILE = ("dry.", "stringly-typed.")
 KNOWN_LANG_EXT = (".py", ".js", ".ts", ".tsx", ".jsx", ".rs")
 
@@ -129,8 +130,8 @@ def _tap_failures(recs: list[dict], offs: dict, where: str) -> list[dict]:
     for r in recs:
         if r.get("site") == "recorder":
             rule, path = r.get("rule", "?"), r.get("file") or ""
-            if r.get("exc_type") == "ValueError":
-                continue  # re-raised by the orchestrator, decided by the exit-status oracle
+            if r.get("exc_type") in ("ValueError", "StepCapExceeded"):
+                continue  # ValueError is re-raised by the orchestrator (exit-status oracle); the step cap is the harness's own
         elif r.get("site") == "rule":
             rule, path = (r["args"] + ["?", "?"])[0], (r["args"] + ["?", "?"])[1]
         elif r.get("site") in ("worker", "future"):
@@ -177,13 +178,37 @@ def _execute(zy, sc: dict, W: World) -> dict:
     all_foreign = all(o["foreign"] for o in offs.values())
     healthy = {W.canon(str(W.proj / r)) for r in sc["world"]["files"]} | {W.canon(str(W.proj / ".thailint.yaml"))}
 
+    off_marks = [W.canon(str(W.proj / rel)) for rel in offs] + [rel.rsplit("/", 1)[-1] for rel in offs]
+
     def healthy_only(vs):
+        """Violations on healthy files that the offenders cannot legitimately influence.
+
+        Per-file rules: all of them. Cross-file rules: all of them when every offender is foreign. With a
+        derived offender (it may honestly duplicate healthy code) stringly-typed findings are left out, and DRY
+        findings are kept only for healthy files none of whose DRY messages - in either run - mentions an
+        offender: a DRY message lists every other location of its block, so such a file shares no block with
+        any offender and its findings must not move.
+        """
+        canon = [json.loads(x) for x in canon_violations(W, vs)]
         out = []
+        for v in canon:
+            if v[1] not in healthy:
+                continue
+            if not v[0].startswith(CROSS_FILE) or all_foreign:
+                out.append(json.dumps(v))
+            elif v[0].startswith("dry.") and v[1] not in dry_touched:
+                out.append(json.dumps(v))
+        return sorted(out)
+
+    def touched_by_offender(vs):
+        t = set()
         for x in canon_violations(W, vs):
             v = json.loads(x)
-            if v[1] in healthy and (all_foreign or not v[0].startswith(CROSS_FILE)):
-                out.append(x)
-        return out
+            if v[0].startswith("dry.") and any(m in (v[4] or "") for m in off_marks):
+                t.add(v[1])
+        return t
+
+    dry_touched: set = set()
 
     def first_off():
         for rel, o in offs.items():
@@ -192,10 +217,11 @@ def _execute(zy, sc: dict, W: World) -> dict:
 
     # ---- 1. API sequential with step counter
     heavy = any(f["kind"] == "many_funcs" for o in sc["offenders"] for f in o["faults"])
+    op_timeout = OP_TIMEOUT if heavy else OP_TIMEOUT_LIGHT
     cap = STEP_CAP_HEAVY if heavy else STEP_CAP_BASE + 10 * base["value"]["steps"]
     stats["cap"] = cap
     seq = zy.call("vsim.ops:api_call", {"env": _env(W, sc, "tap-seq.jsonl"), "root": root, "method": "lint_directory",
-                                        "dir": root, "steps_cap": cap}, timeout=OP_TIMEOUT, exit="_exit")
+                                        "dir": root, "steps_cap": cap}, timeout=op_timeout, exit="_exit")
     lang0, fc0 = first_off()
     Cparts = {}
     if not seq["ok"]:
@@ -210,6 +236,7 @@ def _execute(zy, sc: dict, W: World) -> dict:
                                   msg=seq.get("exc"), tb=seq.get("tb")))
     else:
         stats["steps"] = seq["value"]["steps"]
+        dry_touched |= touched_by_offender(seq["value"]["violations"])
         a = healthy_only(base["value"]["violations"])
         b = healthy_only(seq["value"]["violations"])
         Cparts["seq"] = canon_violations(W, seq["value"]["violations"])
@@ -223,9 +250,36 @@ def _execute(zy, sc: dict, W: World) -> dict:
     failures += _tap_failures(tap, offs, "api-seq")
     failures += _tap_failures(base_tap, offs, "baseline")
 
+    # ---- 1b. offenders first: every healthy file is analysed by rule objects that have just seen the damage
+    if seq["ok"] and not any(f["sig"].startswith(("C11 steps", "C11 wall")) for f in failures):
+        hfiles = [str(W.proj / r) for r in sorted(sc["world"]["files"])]
+        ofiles = [str(W.proj / r) for r in offs]
+        b0 = zy.call("vsim.ops:api_call", {"env": _env(W, sc, "tap-b0.jsonl"), "root": root, "method": "lint_files", "paths": hfiles},
+                     timeout=op_timeout, exit="_exit")
+        for rot in range(min(2, len(hfiles))):
+            order = ofiles + hfiles[rot:] + hfiles[:rot]
+            of = zy.call("vsim.ops:api_call", {"env": _env(W, sc, "tap-of.jsonl"), "root": root, "method": "lint_files", "paths": order},
+                         timeout=op_timeout, exit="_exit")
+            if b0["ok"] and of["ok"]:
+                dry_touched |= touched_by_offender(of["value"]["violations"])
+                a = healthy_only(b0["value"]["violations"])
+                b = healthy_only(of["value"]["violations"])
+                oa, ob = multiset_diff(a, b)
+                for x in oa[:20]:
+                    failures.append(_fail("sibling-lost", rule=json.loads(x)[0], lang=lang0, fault=fc0, where="offenders-first", only_baseline=oa[:5], only_with_offender=ob[:5]))
+                for x in ob[:20]:
+                    failures.append(_fail("sibling-extra", rule=json.loads(x)[0], lang=lang0, fault=fc0, where="offenders-first", only_baseline=oa[:5], only_with_offender=ob[:5]))
+            elif not of["ok"] and of.get("kind") == "timeout":
+                failures.append(_fail("wall", rule="api-files", lang=lang0, fault=fc0))
+    hung = any(f["sig"].startswith(("C11 steps", "C11 wall")) for f in failures)
+    if hung:   # non-termination is established; the remaining operations would only wait for their watchdogs
+        stats["offenders"] = len(offs)
+        stats["all_foreign"] = all_foreign
+        H = digest({k: v for k, v in sc.items() if k not in ("hashseed", "index", "verif_seed", "sched_tape")})
+        return {"failures": _uniq(failures), "stats": stats, "H": H, "C": digest(Cparts), "scenario": sc, "harness": harness}
     # ---- 2. SimPool (real forked workers)
     par = zy.call("vsim.ops:api_call", {"env": _env(W, sc, "tap-par.jsonl"), "root": root, "method": "lint_directory_parallel",
-                                        "dir": root, "workers": sc["W"]}, timeout=OP_TIMEOUT, exit="_exit")
+                                        "dir": root, "workers": sc["W"]}, timeout=op_timeout, exit="_exit")
     if not par["ok"]:
         kind = {"timeout": "wall", "died": "crash"}.get(par.get("kind"), "raised")
         failures.append(_fail(kind, rule="api-par", exc=par.get("exc_type") or "none", lang=lang0, fault=fc0, msg=par.get("exc")))
@@ -234,6 +288,7 @@ def _execute(zy, sc: dict, W: World) -> dict:
         if par["value"]["counters"].get("worker_died"):
             failures.append(_fail("crash", rule="worker", exc="worker-died", lang=lang0, fault=fc0))
         if seq["ok"]:
+            dry_touched |= touched_by_offender(par["value"]["violations"])
             a = healthy_only(base["value"]["violations"])
             b = healthy_only(par["value"]["violations"])
             oa, ob = multiset_diff(a, b)
@@ -247,7 +302,7 @@ def _execute(zy, sc: dict, W: World) -> dict:
         argv = [cmd, "--format", sc["fmt"], "."]
         if i % 2:
             argv.insert(1, "--parallel")
-        r = zy.call("vsim.ops:cli_call", {"env": _env(W, sc, f"tap-cli{i}.jsonl"), "argv": argv}, timeout=OP_TIMEOUT, exit="_exit")
+        r = zy.call("vsim.ops:cli_call", {"env": _env(W, sc, f"tap-cli{i}.jsonl"), "argv": argv}, timeout=op_timeout, exit="_exit")
         if not r["ok"]:
             kind = {"timeout": "wall", "died": "crash"}.get(r.get("kind"), "raised")
             failures.append(_fail(kind, rule=cmd, exc=r.get("exc_type") or "none", lang=lang0, fault=fc0, msg=r.get("exc")))
@@ -264,15 +319,20 @@ def _execute(zy, sc: dict, W: World) -> dict:
     # ---- probe only (the statement speaks of file *content*): read-path faults, counted, never a VIOLATION
     if sc.get("probe") and sc["world"]["files"]:
         stats["probe"] = _read_probe(zy, W, sc, root)
+    uniq = _uniq(failures)
+    stats["offenders"] = len(offs)
+    stats["all_foreign"] = all_foreign
+    H = digest({k: v for k, v in sc.items() if k not in ("hashseed", "index", "verif_seed", "sched_tape")})
+    return {"failures": uniq, "stats": stats, "H": H, "C": digest(Cparts), "scenario": sc, "harness": harness}
+
+
+def _uniq(failures):
     seen, uniq = set(), []
     for f in failures:
         if f["sig"] not in seen:
             seen.add(f["sig"])
             uniq.append(f)
-    stats["offenders"] = len(offs)
-    stats["all_foreign"] = all_foreign
-    H = digest({k: v for k, v in sc.items() if k not in ("hashseed", "index", "verif_seed", "sched_tape")})
-    return {"failures": uniq, "stats": stats, "H": H, "C": digest(Cparts), "scenario": sc, "harness": harness}
+    return uniq
 
 
 def _read_probe(zy, W: World, sc: dict, root: str) -> dict:
